@@ -19,3 +19,7 @@ def run(rep: Report, repo: Repo, tier: str) -> None:
         fsrules.rule_early_return_dominates(rep, repo, "C15-R4")
     with rep.isolated():
         fsrules.rule_walk_root_absolute(rep, repo, "C15-R5")
+    # a directory with a non-excluded CMake file is not dropped because *another* of its files is excluded: the auto-exclusion
+    # probe looks at every file of the directory through the exclusion filter
+    with rep.isolated():
+        fsrules.rule_prechecks_filtered(rep, repo, "C15-R6")
